@@ -29,6 +29,11 @@ fn main() {
     let args: Vec<String> = std::env::args().collect();
     let cmd = args.get(1).map(|s| s.as_str()).unwrap_or("");
     match cmd {
+        "gen" if args[2] == "C12" => {
+            let sc = mmsim::c12::gen_c12(args[3].parse().unwrap());
+            println!("{}", serde_json::to_string_pretty(&sc).unwrap());
+            eprintln!("{}", sc.source());
+        }
         "gen" => {
             let sc = gen_scenario(&args[2], args[3].parse().unwrap());
             println!("{}", serde_json::to_string_pretty(&sc).unwrap());
